@@ -71,6 +71,8 @@ def make_app(cfg):
     from clastic.middleware.cookie import SignedCookieMiddleware, NEVER
     expiry = {'session': 0, 'never': NEVER}.get(cfg['expiry'], cfg['expiry'])
     kw = {'secret_key': SECRET, 'expiry': expiry}
+    if cfg.get('key') == 'default':
+        del kw['secret_key']                # the middleware draws its own signing key
     if cfg.get('arg_name'):
         kw['arg_name'] = cfg['arg_name']
     if cfg.get('cookie_name'):
@@ -304,6 +306,13 @@ class CookieSim(object):
                 data = self.ledger[src % len(self.ledger)]['data'] if self.ledger else {'a': 1}
                 c = JSONCookie(dict(data, forged=True) if p % 2 else dict(data), 'other-key-%d' % q)
                 sent = c.serialize().decode('ascii')
+            elif tkind == 'foreign':
+                # a cookie issued by *another* server's middleware that was also built without an explicit key (or with another
+                # explicit one): same data, same cookie name, a signature this server never made
+                from clastic.middleware.cookie import JSONCookie, SignedCookieMiddleware
+                data = self.ledger[src % len(self.ledger)]['data'] if self.ledger else {'a': 1}
+                other_mw = SignedCookieMiddleware() if p % 3 else SignedCookieMiddleware(secret_key='another-explicit-key')
+                sent = JSONCookie(dict(data), other_mw.secret_key).serialize().decode('ascii')
             else:
                 sent = tamper(tkind, base, oth, p, q)
             self.pending = True
@@ -320,7 +329,7 @@ def same_json(a, b):
         return a == b
 
 
-TAMPERS = ['flip', 'highbit', 'truncate', 'truncate-head', 'extend', 'swap', 'resign', 'random', 'nonascii', 'badb64', 'nosep', 'quote-toggle', 'case']
+TAMPERS = ['flip', 'highbit', 'truncate', 'truncate-head', 'extend', 'swap', 'resign', 'foreign', 'random', 'nonascii', 'badb64', 'nosep', 'quote-toggle', 'case']
 
 
 def machine():
@@ -335,6 +344,7 @@ def machine():
                    st.sampled_from([['expire', 'now'], ['expire', 1000000 + 50], ['expire', 1000000 + 5000], ['expire', 10 ** 10]]))
     ops = st.lists(op, max_size=3)
     cfgs = st.fixed_dictionaries({'expiry': st.sampled_from(['session', 'never', 5, 100, 100, 3600]),
+                                  'key': st.sampled_from(['explicit', 'default']),
                                   'arg_name': st.sampled_from([None, None, 'session', 'sess_data']),
                                   'cookie_name': st.sampled_from([None, None, 'sid', 'my.cookie']),
                                   'second': st.one_of(st.none(), st.none(), st.fixed_dictionaries({
@@ -414,8 +424,8 @@ def header_body(case, ctx):
         sim.step(['req', 1, [['set', 'other', 1]]])
         base = sim.client[0] or 'x?y=z'
         if mut[0] == 'tamper':
-            if mut[1] == 'resign':
-                sim.step(['tamper', 0, 'resign', 0, 1, mut[2], mut[3], []])
+            if mut[1] in ('resign', 'foreign'):
+                sim.step(['tamper', 0, mut[1], 0, 1, mut[2], mut[3], []])
                 return
             sent = tamper(mut[1], base, sim.client[1], mut[2], mut[3])
         elif mut[0] == 'free':
